@@ -614,7 +614,7 @@ def split_amount_expr(s):
         assigned = m.group(1).strip()
         s = s[:m.start()]
     cost = None
-    m = re.search(r'\s(\(@@?\)|@@?)\s+(.*)$', s)
+    m = re.search(r'(?:^|\s)(\(@@?\)|@@?)\s+(.*)$', s)
     if m:
         op = m.group(1)
         cost = (('t' if '@@' in op else 'u') + ('v' if op.startswith('(') else ''), m.group(2).strip())
@@ -667,22 +667,25 @@ def tokenize_print(text):
             rest = ''
         else:
             rest = re.split(r'\s\s;', rest, 1)[0].strip()
-        parts = split_amount_expr(rest) if rest else dict(amt=None, ann='', cost=None, assigned=None)
-        amt = lot = '-'
-        if parts['amt'] is not None:
-            a = parse_amount_text(parts['amt'])
-            key = canon_key(a[0], parts['ann']) or ''
-            amt = show_tok_amt(a, key)
-            m = re.search(r'\{=?\s*([^}]*)\}', parts['ann'])
-            if m:
-                la = parse_amount_text(m.group(1).strip())
-                lot = '%s:%s/%s' % (la[0], la[1].numerator, la[1].denominator)
-        cost = '-'
-        if parts['cost']:
-            cost = parts['cost'][0] + ' ' + show_tok_amt(parse_amount_text(parts['cost'][1]))
-        assigned = '-'
-        if parts['assigned']:
-            assigned = show_tok_amt(parse_amount_text(parts['assigned']))
+        try:
+            parts = split_amount_expr(rest) if rest else dict(amt=None, ann='', cost=None, assigned=None)
+            amt = lot = '-'
+            if parts['amt'] is not None:
+                a = parse_amount_text(parts['amt'])
+                key = canon_key(a[0], parts['ann']) or ''
+                amt = show_tok_amt(a, key)
+                m = re.search(r'\{=?\s*([^}]*)\}', parts['ann'])
+                if m:
+                    la = parse_amount_text(m.group(1).strip())
+                    lot = '%s:%s/%s' % (la[0], la[1].numerator, la[1].denominator)
+            cost = '-'
+            if parts['cost']:
+                cost = parts['cost'][0] + ' ' + show_tok_amt(parse_amount_text(parts['cost'][1]))
+            assigned = '-'
+            if parts['assigned']:
+                assigned = show_tok_amt(parse_amount_text(parts['assigned']))
+        except ValueError as e:      # text print should never write: kept as a token no model line can equal
+            amt, lot, cost, assigned = '?unparsed %s' % rest, '-', '-', '-'
         res[cur].append('%s|%s|%s|%s|%s|%s|%s' % (acct.encode().hex(), kind, mark, amt, lot, cost, assigned))
     return res
 
@@ -965,6 +968,16 @@ def run_one(ctx, res, j, xs, text, path, out_reg, model, layout_cases, idem_case
         res.disagreements.append(dict(name='C06/print-error', case=text, impl='print succeeds', model=mm[model_perr[0]][0]))
         return
     toks = tokenize_print(Ptext)
+    # ---- oracle 0a (journal syntax): what follows the account on a posting line is `AMOUNT [@ COST] [= ASSIGNED]`; a cost
+    # without the amount it prices is not a posting the reader accepts
+    for i, x in enumerate(xs):
+        for t in toks.get(i, []):
+            f = t.split('|')
+            if f[3].startswith('?unparsed') or (f[3] == '-' and f[5] != '-'):
+                res.violations.append(dict(key='print-line:cost-without-amount' if f[5] != '-' else 'print-line:unparsable',
+                                           desc='x%d: the posting line for %s reads %r' % (i, bytes.fromhex(f[0]).decode('utf-8', 'replace'), t),
+                                           case=dict(journal=text, printed=Ptext, xact=i), observed=t,
+                                           required='an amount before any cost'))
     # ---- oracle 0b (cost details): the cost text of a printed posting denotes the cost AS WRITTEN - same kind of mark
     # (a per-unit cost on a zero amount may only be shown as the total, which is then zero), same (virtual) marking,
     # exactly the written number and commodity - whatever finalize made of the posting's cost (lot basis, gain/loss)
